@@ -39,10 +39,11 @@ def qbytes_int_mm(activations: torch.Tensor, weights: torch.Tensor, output_scale
     # torch._int_mm works on transposed weights, i.e (in_features, out_features)
     weights = weights.t()
     if activations.ndim == 2:
-        out_data = torch._int_mm(activations, weights)
+        # torch._int_mm returns garbage on CPU when the rows of the activations overlap (expanded Tensor)
+        out_data = torch._int_mm(activations.contiguous(), weights)
     else:
         output_shape = activations.shape[:-1] + (out_features,)
-        out_data = torch._int_mm(activations.reshape(-1, in_features), weights)
+        out_data = torch._int_mm(activations.reshape(-1, in_features).contiguous(), weights)
         out_data = out_data.view(output_shape)
     # We must evaluate the output as float32 because the multiplication
     # of the int32 data by the scales might overflow
